@@ -97,7 +97,7 @@ func (votes ExchangeRateVotes) WeightedMedian() sdk.Dec {
 			votePower := v.Power
 
 			pivot += votePower
-			if pivot >= (totalPower / 2) {
+			if votePower > 0 && pivot >= (totalPower/2) {
 				return v.ExchangeRate
 			}
 		}
@@ -115,7 +115,7 @@ func (pb ExchangeRateVotes) WeightedMedianWithAssertion() sdk.Dec {
 			votePower := v.Power
 
 			pivot += votePower
-			if pivot >= (totalPower / 2) {
+			if votePower > 0 && pivot >= (totalPower/2) {
 				return v.ExchangeRate
 			}
 		}
